@@ -553,6 +553,16 @@ class Program(object):
             if any(v is None for v in vals):
                 return None
             return tuple(vals)
+        if isinstance(expr, ast.Call) and isinstance(expr.func, (ast.Name, ast.Attribute)) and \
+                (expr.func.id if isinstance(expr.func, ast.Name) else expr.func.attr) == "calcsize" \
+                and len(expr.args) == 1:
+            v = self.fold_str(module, expr.args[0], cls, depth + 1)
+            if isinstance(v, str):
+                import struct
+                try:
+                    return struct.calcsize(v)
+                except Exception:
+                    return None
         if isinstance(expr, ast.Call):
             # emptybytes / b("..") / u("..") helpers from whoosh.compat
             if isinstance(expr.func, ast.Name) and expr.func.id in ("b", "u") \
